@@ -78,6 +78,7 @@ pub enum Call {
     Res0,
     Hex(u64),
     Area(i32),
+    Nearest(f64, f64),
 }
 
 fn bits(p: &LonLat) -> String {
@@ -100,11 +101,40 @@ pub fn exec(c: &Call) -> String {
         Call::Res0 => format!("{:?}", a5::get_res0_cells()),
         Call::Hex(v) => format!("{:?}", a5::hex_to_u64(&a5::u64_to_hex(*v))),
         Call::Area(r) => format!("{:016x} {}", a5::cell_area(*r).to_bits(), a5::get_num_cells(*r)),
+        Call::Nearest(t, p) => format!(
+            "{}",
+            a5::core::origin::find_nearest_origin(a5::coordinate_systems::Spherical::new(
+                a5::coordinate_systems::Radians::new_unchecked(*t),
+                a5::coordinate_systems::Radians::new_unchecked(*p)
+            ))
+            .id
+        ),
     });
     r.unwrap_or_else(|_| "PANIC".into())
 }
 
+/// points close to the seams between faces / at face centres: where a remembered "current face"
+/// or any other cross-call state would change the answer
+fn seam_lonlat(rng: &mut Rng) -> (f64, f64, f64, f64) {
+    let (t, p) = if rng.chance(1, 4) {
+        let o = &a5::core::origin::get_origins()[rng.below(12) as usize];
+        (o.axis.theta().get(), o.axis.phi().get())
+    } else {
+        let e = 10f64.powi(-(rng.range_i(3, 8) as i32));
+        crate::geocorr::seam_point(rng, e)
+    };
+    let ll = a5::core::coordinate_transforms::to_lon_lat(a5::coordinate_systems::Spherical::new(
+        a5::coordinate_systems::Radians::new_unchecked(t),
+        a5::coordinate_systems::Radians::new_unchecked(p),
+    ));
+    (ll.longitude(), ll.latitude(), t, p)
+}
+
 pub fn random_call(rng: &mut Rng) -> Call {
+    if rng.chance(1, 3) {
+        let (lon, lat, t, p) = seam_lonlat(rng);
+        return if rng.chance(1, 2) { Call::Nearest(t, p) } else { Call::Lookup(lon, lat, rng.range_i(0, 6) as i32) };
+    }
     match rng.below(12) {
         0..=3 => {
             let (lon, lat) = uniform_point(rng);
@@ -127,10 +157,35 @@ pub fn random_call(rng: &mut Rng) -> Call {
 pub fn search_c13(rng: &mut Rng, thorough: bool) -> SearchResult {
     let mut r = SearchResult::default();
     r.rule = "random sequences of public calls (lookups, centres, boundaries, hierarchy, compaction, metadata): each result, rendered bit-exactly, is compared with the same call executed as the FIRST call of a fresh thread; then N threads run random sequences concurrently and every result is compared with the single-threaded reference. non-trivial = calls that touch the projection memo (lookup / centre / boundary)".into();
-    let seqs = if thorough { 60 } else { 12 };
-    let len = if thorough { 120 } else { 60 };
+    let seqs = if thorough { 100 } else { 20 };
+    let len = if thorough { 150 } else { 90 };
     for _ in 0..seqs {
-        let calls: Vec<Call> = (0..len).map(|_| random_call(rng)).collect();
+        let mut calls: Vec<Call> = Vec::new();
+        while calls.len() < len {
+            if rng.chance(1, 4) {
+                // a call on one face followed by calls hugging the seam to a neighbouring face: any state
+                // carried from one call to the next (a remembered face, a memo keyed too coarsely) shows here
+                let (i, j) = crate::geocorr::adjacent_faces(rng);
+                let o = &a5::core::origin::get_origins()[if rng.chance(1, 2) { i } else { j }];
+                calls.push(Call::Nearest(o.axis.theta().get(), o.axis.phi().get()));
+                for _ in 0..2 {
+                    let eps = 10f64.powi(-(rng.range_i(4, 9) as i32)) * if rng.chance(1, 2) { 1.0 } else { -1.0 };
+                    let t = (rng.unit() - 0.5) * if rng.chance(1, 2) { 0.02 } else { 0.6 };
+                    let (th, ph) = crate::geocorr::edge_point(i, j, t, eps);
+                    if rng.chance(1, 2) {
+                        calls.push(Call::Nearest(th, ph));
+                    } else {
+                        let ll = a5::core::coordinate_transforms::to_lon_lat(a5::coordinate_systems::Spherical::new(
+                            a5::coordinate_systems::Radians::new_unchecked(th),
+                            a5::coordinate_systems::Radians::new_unchecked(ph),
+                        ));
+                        calls.push(Call::Lookup(ll.longitude(), ll.latitude(), rng.range_i(0, 4) as i32));
+                    }
+                }
+            } else {
+                calls.push(random_call(rng));
+            }
+        }
         // one thread, in sequence
         let cs = calls.clone();
         let seq_results: Vec<String> = thread::spawn(move || cs.iter().map(exec).collect()).join().unwrap();
@@ -139,7 +194,7 @@ pub fn search_c13(rng: &mut Rng, thorough: bool) -> SearchResult {
             let c2 = c.clone();
             let fresh = thread::spawn(move || exec(&c2)).join().unwrap();
             r.evaluations += 1;
-            if matches!(c, Call::Lookup(..) | Call::Centre(..) | Call::Boundary(..)) {
+            if matches!(c, Call::Lookup(..) | Call::Centre(..) | Call::Boundary(..) | Call::Nearest(..)) {
                 r.nontrivial += 1;
             }
             if &fresh != want {
